@@ -150,6 +150,15 @@ pub fn perm_base(seed: u64, i: usize) -> Def {
             let ret = if p.kind == PatKind::Skip { CbRet::SkUnit } else { CbRet::Unit };
             p.cb = Some(Cb { ret, inline: false, bump: false, salt: 0, target: p.variant });
             p.cb_positional = rng.chance(1, 3);
+            if rng.chance(1, 2) {
+                // inline closures whose bodies contain commas, comparison and shift operators, generics
+                p.cb_text = Some(rng.pick_str(&[
+                    "|lex| lex.slice().len() < 3", "|lex| lex.slice().len() <= 3 || lex.span().start > 2", "|lex| (1usize << lex.slice().len()) > 8",
+                    "|lex| { let v = Vec::<u8>::with_capacity(4); v.len() < 1 }", "|lex| lex.slice().len() > 1", "|lex| core::cmp::max(1, 2) < lex.slice().len()",
+                    "|lex| { let (a, b) = (1, 2); a < b }", "|lex| lex.extras < 5", "|lex| matches!(lex.slice().len(), 1 | 2)", "|lex| lex.slice().parse::<u32>().is_ok()",
+                    "some::path::to_callback", "|lex| -> bool { lex.slice().len() < 2 }",
+                ]).to_string());
+            }
         }
         if rng.chance(1, 2) {
             p.ignore_case = true;
@@ -166,6 +175,40 @@ pub fn perm_base(seed: u64, i: usize) -> Def {
     }
     if rng.chance(1, 2) {
         def.extra_logos_items.push("crate = ::logos".into());
+    }
+    if rng.chance(1, 3) {
+        def.extra_logos_items.push("export_dir = \"target/logos-graphs\"".into());
+    }
+    if rng.chance(1, 3) {
+        // generic enum: concrete types and the source lifetime are given by #[logos] items
+        match rng.below(4) {
+            0 => {
+                def.raw_generics = "<T>".into();
+                def.extra_logos_items.push(format!("type T = {}", rng.pick_str(&["&'static str", "u32", "&str", "Vec<&'static [u8]>", "(u8, &'static str)"])));
+                def.extra_logos_items.push("lifetime = none".into());
+                def.raw_variants = "    #[token(\"\\u{7}\", gen_cb)]\n    Gen(T),\n".into();
+            }
+            1 => {
+                def.raw_generics = "<'a, 'b, T>".into();
+                def.extra_logos_items.push(format!("type T = {}", rng.pick_str(&["&'b str", "&'a str", "&'static str", "Wrapper<'a, 'b>"])));
+                def.extra_logos_items.push(format!("lifetime = {}", rng.pick_str(&["'a", "'b", "none"])));
+                def.raw_variants = "    #[token(\"\\u{7}\", gen_cb)]\n    Gen(T),\n    #[token(\"\\u{6}\", gen_cb2)]\n    Other(&'a str, ),\n".replace("(&'a str, )", "(&'b u8)");
+            }
+            2 => {
+                def.raw_generics = "<T, U>".into();
+                def.extra_logos_items.push("type T = &str".into());
+                def.extra_logos_items.push("type U = Option<&'static str>".into());
+                if rng.chance(1, 2) {
+                    def.extra_logos_items.push("lifetime = none".into());
+                }
+                def.raw_variants = "    #[token(\"\\u{7}\", gen_cb)]\n    Gen(T),\n    #[token(\"\\u{6}\", gen_cb2)]\n    Other(U),\n".into();
+            }
+            _ => {
+                def.raw_generics = "<'x>".into();
+                def.extra_logos_items.push(format!("lifetime = {}", rng.pick_str(&["'x", "none"])));
+                def.raw_variants = "    #[token(\"\\u{7}\", gen_cb)]\n    Gen(&'x str),\n".into();
+            }
+        }
     }
     if !def.pats.iter().any(|p| p.kind == PatKind::Skip) {
         def.push(Pat::skip("[ \\n]+").prio(3));
